@@ -21,6 +21,8 @@ def run(chk, tier):
     for cfg in configs(tier, thorough=('std',)):
         F = load(chk, cfg)
         match_inputs(chk, F, 'R06.5', cfg)
+        from props import ctor
+        ctor.matcher_storage(chk, F, 'R06.5.store', cfg)
         E.selector_rules(chk, F, cfg, r_scan='R06.5.sel', r_pure='R06.5.pure', r_ord='R06.5.ord', r_bump=None)
 
 
